@@ -443,6 +443,10 @@ def run(rep, tier):
         nw += c13_audit.offset_wrap_rule(rep, u_, lab_ if lab_.startswith("src/") else "include/" + lab_)
     rep.floor("differences of unsigned parameters in bound tests", nw, 1)
     rep.floor("stores of the copy-and-convert routines", c13_audit.output_only_rule(rep, us["src/proto/http.c"]), 2)
+    c13_audit.chunk_result_rule(rep, us["src/proto/http.c"])
+    udr = driver.load_units([common.src_unit("src/proto/dns_resolv.c")])
+    rep.use_units(udr)
+    c13_audit.cache_type_flag_rule(rep, udr["src/proto/dns_resolv.c"])
     usap = driver.load_units([common.src_unit("src/proto/sap_rcvr.c")])["src/proto/sap_rcvr.c"]
     rep.floor("terminated receive buffers", c13_audit.terminator_room_rule(rep, usap, "src/proto/sap_rcvr.c"), 1)
     # request line: the components returned are sub-spans of the target (rule lives in C20)
